@@ -15,3 +15,5 @@ INVARIANT IndexLaw
 INVARIANT MergeLaw
 INVARIANT MinusLaw
 INVARIANT JoinLaw
+PROPERTY ReadOnlyOpsPreserveReceiver
+PROPERTY DropPreservesReceiver
